@@ -176,9 +176,9 @@ Proof.
   - now rewrite Hc.
 Qed.
 
-Lemma step_inv : forall nd o, node_inv nd -> node_inv (fst (step nd o)).
+Lemma step0_inv : forall nd o, node_inv nd -> node_inv (fst (step0 nd o)).
 Proof.
-  intros nd o H; pose proof H as [Hc Hs]; destruct o as [e tsok propok pre|n| |p| | |b|c t i|c t i content|c t i]; cbn.
+  intros nd o H; pose proof H as [Hc Hs]; destruct o as [e tsok propok pre|n| |p| | |b|c t i|c t i content|c t i|o']; cbn; [| | | | | | | | | |exact H].
   - destruct (pre && prefilter (r_synced (n_cur nd)) e); [exact H|].
     destruct (negb tsok); [exact H|]. destruct (negb propok); [exact H|]. split; cbn; assumption.
   - destruct (Nat.min n (length (n_pending nd))) eqn:E; [exact H|]. apply commit_n_inv; exact H.
@@ -199,6 +199,18 @@ Proof.
     destruct (negb (same_snap o t i)); [exact H|].
     destruct (negb (sn_status o =? apply_snap_transferred)); [exact H|split; cbn; assumption].
   - split; cbn; assumption.
+Qed.
+
+Lemma step_not_rpc : forall nd o, (forall o', o <> OSnapRpc o') -> step nd o = step0 nd o.
+Proof. intros nd o H; destruct o; try reflexivity. exfalso; eapply H; reflexivity. Qed.
+
+Lemma step_inv : forall nd o, node_inv nd -> node_inv (fst (step nd o)).
+Proof.
+  intros nd o H. destruct o; try (apply step0_inv; exact H).
+  cbn [step]. destruct (snap_req_pos o) as [[[c t] i]|]; [|exact H].
+  destruct (prefilter _ _); [exact H|].
+  pose proof (step0_inv nd o H) as H1. destruct (step0 nd o) as [nd1 r]; cbn [fst] in H1.
+  destruct r; cbn [fst]; try exact H1. now apply commit_n_inv.
 Qed.
 
 Lemma run_snoc : forall ops o, run (ops ++ [o]) = fst (step (run ops) o).
@@ -229,11 +241,11 @@ Theorem snapshot_is_current : forall ops,
 Proof. intro ops; rewrite run_snoc; reflexivity. Qed.
 
 (* the log only grows at the end, except that nothing ever removes from it *)
-Lemma step_log_ext : forall nd o, exists ext, n_log (fst (step nd o)) = n_log nd ++ ext /\
-  n_cur (fst (step nd o)) = apply_log (n_cur nd) ext \/
-  (n_log (fst (step nd o)) = n_log nd ++ ext /\ ext = [] /\ o = ORestart).
+Lemma step0_log_ext : forall nd o, exists ext, n_log (fst (step0 nd o)) = n_log nd ++ ext /\
+  n_cur (fst (step0 nd o)) = apply_log (n_cur nd) ext \/
+  (n_log (fst (step0 nd o)) = n_log nd ++ ext /\ ext = [] /\ o = ORestart).
 Proof.
-  intros nd o; destruct o as [e tsok propok pre|n| |p| | |b|c t i|c t i content|c t i]; cbn.
+  intros nd o; destruct o as [e tsok propok pre|n| |p| | |b|c t i|c t i content|c t i|o']; cbn; [| | | | | | | | | |exists []; left; now rewrite app_nil_r].
   - exists []. left. destruct (pre && prefilter (r_synced (n_cur nd)) e); [now rewrite app_nil_r|].
     destruct (negb tsok); [now rewrite app_nil_r|]. destruct (negb propok); now rewrite app_nil_r.
   - destruct (Nat.min n (length (n_pending nd))) eqn:E.
@@ -250,6 +262,21 @@ Proof.
     destruct (negb (same_snap o t i)); [now rewrite app_nil_r|].
     destruct (negb (sn_status o =? apply_snap_transferred)); now rewrite app_nil_r.
   - exists []; left; now rewrite app_nil_r.
+Qed.
+
+Lemma step_log_ext : forall nd o, exists ext, n_log (fst (step nd o)) = n_log nd ++ ext /\
+  n_cur (fst (step nd o)) = apply_log (n_cur nd) ext \/
+  (n_log (fst (step nd o)) = n_log nd ++ ext /\ ext = [] /\ o = ORestart).
+Proof.
+  intros nd o. destruct o; try apply step0_log_ext.
+  cbn [step]. destruct (snap_req_pos o) as [[[c t] i]|] eqn:EP; [|exists []; left; now rewrite app_nil_r].
+  destruct (prefilter _ _); [exists []; left; now rewrite app_nil_r|].
+  destruct (step0_log_ext nd o) as [ext1 [[Hl Hc]|[_ [_ ->]]]]; [|discriminate].
+  destruct (step0 nd o) as [nd1 r]; cbn [fst] in *.
+  destruct r; cbn [fst]; try (exists ext1; left; split; assumption).
+  eexists; left; split; cbn.
+  - rewrite Hl, <- app_assoc. reflexivity.
+  - rewrite Hc, <- apply_log_app. reflexivity.
 Qed.
 
 (* over every schedule and every next step, no cluster's recorded position moves backwards *)
@@ -562,9 +589,9 @@ Proof.
   apply Forall_app; split; [exact Hp|]. constructor; [exact Hle|constructor].
 Qed.
 
-Lemma step_tags : forall nd o, tags_ok nd -> tags_ok (fst (step nd o)).
+Lemma step0_tags : forall nd o, tags_ok nd -> tags_ok (fst (step0 nd o)).
 Proof.
-  intros nd o H; pose proof H as [Hl Hp]; destruct o as [e tsok propok pre|n| |p| | |b|c t i|c t i content|c t i]; cbn.
+  intros nd o H; pose proof H as [Hl Hp]; destruct o as [e tsok propok pre|n| |p| | |b|c t i|c t i content|c t i|o']; cbn; [| | | | | | | | | |exact H].
   - destruct (pre && prefilter (r_synced (n_cur nd)) e); [exact H|].
     destruct (negb tsok); [exact H|]. destruct (negb propok); [exact H|]. split; cbn; [exact Hl|].
     apply Forall_app; split; [exact Hp|]. constructor; [exact I|constructor].
@@ -582,6 +609,15 @@ Proof.
     destruct (negb (same_snap o t i)); [exact H|].
     destruct (negb (sn_status o =? apply_snap_transferred)); [exact H|]. now apply snoc_pending_tags.
   - split; cbn; [exact Hl|]. apply Forall_app; split; [exact Hp|]. constructor; [exact I|constructor].
+Qed.
+
+Lemma step_tags : forall nd o, tags_ok nd -> tags_ok (fst (step nd o)).
+Proof.
+  intros nd o H. destruct o; try (apply step0_tags; exact H).
+  cbn [step]. destruct (snap_req_pos o) as [[[c t] i]|]; [|exact H].
+  destruct (prefilter _ _); [exact H|].
+  pose proof (step0_tags nd o H) as H1. destruct (step0 nd o) as [nd1 r]; cbn [fst] in H1.
+  destruct r; cbn [fst]; try exact H1. now apply commit_n_tags.
 Qed.
 
 Lemma run_tags : forall ops, tags_ok (run ops).
@@ -1045,7 +1081,7 @@ Fixpoint delivered (ops : list op) : list sentry :=
   end.
 
 Definition no_snap_ops (ops : list op) : Prop :=
-  Forall (fun o => match o with OXfer _ _ _ | OSnapReq _ _ _ _ | OSkipReq _ _ _ => False | _ => True end) ops.
+  Forall (fun o => match o with OXfer _ _ _ | OSnapReq _ _ _ _ | OSkipReq _ _ _ | OSnapRpc _ => False | _ => True end) ops.
 
 Lemma delivered_app : forall a b, delivered (a ++ b) = delivered a ++ delivered b.
 Proof.
@@ -1080,11 +1116,11 @@ Proof.
 Qed.
 
 Lemma step_from : forall nd o ds,
-  match o with OXfer _ _ _ | OSnapReq _ _ _ _ | OSkipReq _ _ _ => False | _ => True end ->
+  match o with OXfer _ _ _ | OSnapReq _ _ _ _ | OSkipReq _ _ _ | OSnapRpc _ => False | _ => True end ->
   from_delivered nd ds -> from_delivered (fst (step nd o)) (ds ++ delivered [o]).
 Proof.
   intros nd o ds Hns H. pose proof (from_delivered_weaken nd ds (delivered [o]) H) as W.
-  destruct o as [x tsok propok pre|n| |p| | |b|c t i|c t i content|c t i]; try contradiction; cbn [step delivered].
+  destruct o as [x tsok propok pre|n| |p| | |b|c t i|c t i content|c t i|o']; try contradiction; cbn [step step0 delivered].
   - destruct (pre && prefilter (r_synced (n_cur nd)) x); [exact W|].
     destruct (negb tsok); [exact W|]. destruct (negb propok); [exact W|]. unfold from_delivered; cbn.
     intros le He. rewrite app_assoc in He. apply in_app_or in He. destruct He as [He|[He|[]]].
